@@ -37,6 +37,31 @@ var floatPool = []float64{0, math.Copysign(0, -1), 1, -1, 1.5, -2.25, 0.1, 0.3, 
 	math.SmallestNonzeroFloat64 * 3, 2.2250738585072014e-308, 1.7976931348623157e308, 3.141592653589793, 1e100, 1e-100,
 	4.35, 0.000001234, 9007199254740993, float64(1 << 62), 1.0e+15, 1.0e+16, 123e-20}
 
+// integer leaves of every Go width and signedness (the writers have one arm per type)
+var intTypes = []string{"int", "int8", "int16", "int32", "int64", "uint", "uint8", "uint16", "uint32", "uint64"}
+
+// values at and around every boundary: 2^7, 2^8, 2^15, 2^16, 2^31, 2^32, 2^63, 2^64 (as bit patterns;
+// tIntW truncates to the width of the type, so each type sees its own minimum, maximum and wrap-around)
+var uintPool = []uint64{0, 1, 9, 10, 127, 128, 129, 255, 256, 32767, 32768, 65535, 65536, 1<<31 - 1, 1 << 31, 1<<31 + 1, 1<<32 - 1, 1 << 32,
+	1<<53 + 1, 1<<63 - 1, 1 << 63, 1<<63 + 1, 1<<64 - 1, 1<<64 - 2, 10000000000000000000, 9999999999999999999, 18446744073709551615, 12345678901234567890,
+	1<<64 - 128, 1<<64 - 129, 1<<64 - 32768, 1<<64 - 32769, 1<<64 - 1<<31, 1<<64 - 1<<31 - 1}
+
+// typedInts gives every (type, boundary value) leaf.
+func typedInts() []*T {
+	var out []*T
+	seen := map[string]bool{}
+	for _, w := range intTypes {
+		for _, u := range uintPool {
+			t := tIntW(w, int64(u), u)
+			if k := w + ":" + t.dec(); !seen[k] {
+				seen[k] = true
+				out = append(out, t)
+			}
+		}
+	}
+	return out
+}
+
 type treeGen struct {
 	r *lib.Rng
 }
@@ -123,8 +148,19 @@ func (g *treeGen) scalar() *T {
 		return tBool(true)
 	case 3:
 		return tBool(false)
-	case 4, 5, 6:
+	case 4, 5:
 		return tInt(g.int64v())
+	case 6:
+		w := lib.Pick(g.r, intTypes)
+		if g.r.Intn(2) == 0 {
+			u := lib.Pick(g.r, uintPool)
+			return tIntW(w, int64(u), u)
+		}
+		u := g.r.Next() >> uint(g.r.Intn(64))
+		if g.r.Bool() {
+			u = -u
+		}
+		return tIntW(w, int64(u), u)
 	case 7, 8:
 		return tFlt(g.float())
 	default:
@@ -273,6 +309,18 @@ func boundaryTrees(full bool) []*T {
 	// every scalar
 	for _, i := range intPool {
 		out = append(out, tInt(i), tArr(tInt(i)), tObj("i", tInt(i)))
+	}
+	// every Go integer type at and around its boundaries (bare, as element, as member, in table rows)
+	for i, t := range typedInts() {
+		out = append(out, t)
+		switch i % 3 {
+		case 0:
+			out = append(out, tArr(t, tInt(1)))
+		case 1:
+			out = append(out, tObj("u", t))
+		default:
+			out = append(out, tArr(tArr(t, tInt(1)), tArr(tInt(22), t)), tArr(tObj("a", t, "b", tInt(1)), tObj("a", tInt(5), "b", t)))
+		}
 	}
 	for _, f := range floatPool {
 		out = append(out, tFlt(f), tArr(tFlt(f), tFlt(-f)))
